@@ -289,3 +289,8 @@ def check(ctx):
                               'callback\'s decision', {'returned': T.pretty(r)[:300]})
         ctx.guard('R4', fsite(f), mrule)
     ctx.count('mpi_callback::operator() instantiations', nm, 3)
+    # the decision is taken on the combination of all results: its formulas (and which results are
+    # skipped) are part of when a run stops (shared with C13)
+    from .common import share
+    share(ctx, 'C13', 'R5/C13.', ['R1.', 'R4.order'])
+
